@@ -115,7 +115,7 @@ def check_probe(h, which, pat, fmts, regex, match_case, count):
             rs = vs.format_matching(pat, *args, regex=regex, match_case=match_case, count=count)
         else:
             rs = vs.unformat_matching(pat, *args, regex=regex, match_case=match_case, count=count)
-        if type(rs) is not AnsiStr or model.alpha_codes(rs._s) != model.alpha_codes(w):
+        if type(rs) is not AnsiStr or model.alpha_codes(rs) != model.alpha_codes(w):
             bad.append(('match-ansistr', '%s on AnsiStr differs from the loop' % what))
     except Exception as e:  # noqa
         bad.append(('match-raises', '%s on AnsiStr raised %s: %s' % (what, type(e).__name__, e)))
